@@ -337,3 +337,86 @@ func VH_C10_symbolic() {
 		vCover("outer-continued-after-inner")
 	}
 }
+
+// the same arrangement run twice: whatever happened in the first run (an inner node failing, the
+// context being cancelled at any callback, an inner flow with its own retry budget being retried or
+// cut short), the second run — clean, fresh context, fresh store — is the flattened machine's path
+type c10ReMon struct {
+	store  *SharedStore
+	ctx    *vCtx
+	chaos  bool
+	seq    [8]int
+	n      int
+	cancelled bool
+}
+
+type c10ReProbe struct {
+	id int
+	m  *c10ReMon
+}
+
+func (p *c10ReProbe) trouble(where string) error {
+	m := p.m
+	if !m.chaos {
+		return nil
+	}
+	if !m.cancelled && vNondet[bool]("cancelHere") {
+		m.ctx.cancel(vNondet[bool]("deadlineKind"))
+		m.cancelled = true
+		vCover("first-run-cancelled")
+	}
+	if vNondet[bool]("failHere") {
+		vCover("first-run-callback-error")
+		if m.cancelled {
+			return m.ctx.Err() // a node failing BECAUSE its context ended
+		}
+		return vNewErr()
+	}
+	return nil
+}
+
+func (p *c10ReProbe) Prep(ctx context.Context, s *SharedStore) (any, error) {
+	m := p.m
+	if !m.chaos {
+		vAssert(s == m.store, "inner-node-sees-the-parents-store")
+		if m.n < len(m.seq) {
+			m.seq[m.n] = p.id
+		}
+		m.n++
+	}
+	return nil, nil
+}
+func (p *c10ReProbe) Exec(ctx context.Context, x any) (any, error) { return nil, p.trouble("exec") }
+func (p *c10ReProbe) Post(ctx context.Context, s *SharedStore, x, e any) (Action, error) {
+	return DefaultAction, p.trouble("post")
+}
+
+func VH_C10_rerun() {
+	vUnwind(12)
+	m := &c10ReMon{store: NewSharedStore(), ctx: vNewCtx(), chaos: true}
+	p0, p1 := &c10ReProbe{id: 0, m: m}, &c10ReProbe{id: 1, m: m}
+	q0, q1, q2 := &c10ReProbe{id: 10, m: m}, &c10ReProbe{id: 11, m: m}, &c10ReProbe{id: 12, m: m}
+	inner := NewFlow(q0)
+	inner.Connect(q0, DefaultAction, q1).Connect(q1, DefaultAction, q2)
+	R := vNondet[int]("innerBudget")
+	vAssume(1 <= R && R <= vParam("R", 2))
+	R = vConcrete(R)
+	WithMaxRetries(R)(inner.BaseNode)
+	if R > 1 {
+		vCover("inner-flow-with-retry-budget")
+	}
+	outer := NewFlow(p0)
+	outer.Connect(p0, DefaultAction, inner).Connect(inner, DefaultAction, p1)
+	_, err1 := Run(m.ctx, outer, NewSharedStore())
+	_ = err1
+	// second run: clean
+	m.chaos, m.ctx, m.store = false, vNewCtx(), NewSharedStore()
+	_, err := Run(m.ctx, outer, m.store)
+	vAssert(err == nil, "clean-second-run-succeeds")
+	want := [5]int{0, 10, 11, 12, 1}
+	vAssert(m.n == 5, "second-run-visits-the-flattened-path")
+	for i := 0; i < m.n && i < 5; i++ {
+		vAssert(m.seq[i] == want[i], "visit-order-equals-flattened-machine")
+	}
+	vCover("second-run")
+}
